@@ -312,7 +312,11 @@ class World:
         self.eq_calls.append((a, b, mapid, connid))
 
     def make_equivalences(self):
+        """plan all equivalences first (in-model pairs and pairs with a variable of another model / of a lone
+        component / without parent), then make them in RANDOM order: the equivalence list of a variable is an arbitrary
+        interleaving of in-model and out-of-model targets (out-of-model first / middle / last, on either end of a pair)"""
         r = self.rng
+        plans = []            # (a, b, with_ids)
         for m in self.models:
             vs = [v for c in self.comps_of(m) for v in c.vars]
             if len(vs) < 2:
@@ -329,38 +333,49 @@ class World:
                 for kid in pa.kids:
                     near += kid.vars
                 b = r.choice(near) if (near and k < 0.7) else r.choice(vs)
-                if a is b:
-                    continue
-                if r.random() < 0.7:
-                    key = frozenset((a.parent.slot, b.parent.slot))
-                    if key in self.conn_ids and r.random() < 0.9:
-                        conn = self.conn_ids[key]
-                    else:
-                        conn = self.s(IDS)
-                        if key in self.conn_ids and self.conn_ids[key] != conn:
-                            self.conn_uniform = False
-                        self.conn_ids.setdefault(key, conn)
-                    self.add_eq(a, b, self.s(IDS), conn)
-                else:
-                    key = frozenset((a.parent.slot, b.parent.slot))
-                    if key in self.conn_ids and self.conn_ids[key] != "":
-                        self.conn_uniform = False
-                    self.conn_ids.setdefault(key, "")
-                    self.add_eq(a, b)
-        if self.ext_eq and r.random() < 0.25:
+                if a is not b:
+                    plans.append((a, b, r.random() < 0.7))
+        if self.ext_eq and r.random() < 0.4:
             inner = [v for m in self.models for c in self.comps_of(m) for v in c.vars]
-            outer = list(self.lone_vars) + [v for c in self.lone_comps for k in self.comps_of(c) for v in k.vars]
-            if len(self.models) > 1:
-                outer += [v for c in self.comps_of(self.models[1]) for v in c.vars]
-                inner = [v for c in self.comps_of(self.models[0]) for v in c.vars] + inner
-            if inner and outer:
-                for _ in range(r.choice([1, 1, 2])):
-                    a, b = r.choice(inner), r.choice(outer)
+            connected = [x for (a, b, _) in plans for x in (a, b)]
+            for _ in range(r.choice([1, 1, 2, 3, 4])):
+                # an outside partner for (preferably) a variable that also has in-model equivalences
+                a = r.choice(connected) if (connected and r.random() < 0.7) else (r.choice(inner) if inner else None)
+                if a is None:
+                    break
+                own = self.root_of(a.parent)
+                outer = list(self.lone_vars) + [v for c in self.lone_comps for k in self.comps_of(c) for v in k.vars]
+                outer += [v for m in self.models if m is not own for c in self.comps_of(m) for v in c.vars]
+                if not outer:
+                    break
+                b = r.choice(outer)
+                plans.append((a, b, r.random() < 0.5) if r.random() < 0.5 else (b, a, r.random() < 0.5))
+        r.shuffle(plans)
+        for (a, b, with_ids) in plans:
+            internal = a.parent is not None and b.parent is not None and self.root_of(a.parent) is self.root_of(b.parent) \
+                and isinstance(self.root_of(a.parent), Model)
+            if not internal:
+                self.conn_uniform = False
+                if with_ids:
+                    self.add_eq(a, b, self.s(IDS), self.s(IDS))
+                else:
+                    self.add_eq(a, b)
+                continue
+            key = frozenset((a.parent.slot, b.parent.slot))
+            if with_ids:
+                if key in self.conn_ids and r.random() < 0.9:
+                    conn = self.conn_ids[key]
+                else:
+                    conn = self.s(IDS)
+                    if key in self.conn_ids and self.conn_ids[key] != conn:
+                        self.conn_uniform = False
+                    self.conn_ids.setdefault(key, conn)
+                self.add_eq(a, b, self.s(IDS), conn)
+            else:
+                if key in self.conn_ids and self.conn_ids[key] != "":
                     self.conn_uniform = False
-                    if r.random() < 0.5:
-                        self.add_eq(a, b, self.s(IDS), self.s(IDS))
-                    else:
-                        self.add_eq(a, b)
+                self.conn_ids.setdefault(key, "")
+                self.add_eq(a, b)
 
     # ---- script
     def script(self):
